@@ -184,8 +184,9 @@ def enc_list(xs):
     return [len(xs)] + [y for x in xs for y in x]
 
 
-def encode_case(case, absmap, it, fuel=400, reached=None):
-    """-> (line of ints, list of texts by content index)"""
+def encode_struct(case, absmap, it, reached=None):
+    """the model's view of a case: contents [(tag, [item])], disk [(path, cidx)], extra [path],
+    hist [(raw, path, cidx)], texts (by content index); item = ("decl", name) | ("inc", lo, hi, reached, None | (istr, llo, lhi))"""
     reached = reached if reached is not None else REACHED
     texts = []
     for _, t in case["files"]:
@@ -201,29 +202,116 @@ def encode_case(case, absmap, it, fuel=400, reached=None):
         k = 0
         for a in absmap[t]:
             if "decl" in a:
-                items.append([0, it.name(a["decl"])])
+                items.append(("decl", it.name(a["decl"])))
             else:
                 fl = True if flags is None else flags[k]
                 k += 1
                 lo, hi = a["inc"]
                 if a["path"] is None:
-                    items.append([1, lo, hi, int(fl), 0])
+                    items.append(("inc", lo, hi, bool(fl), None))
                 else:
                     v, llo, lhi = a["path"]
-                    sp = it.path(v)
-                    items.append([1, lo, hi, int(fl), 1, len(sp)] + sp + [llo, lhi])
+                    items.append(("inc", lo, hi, bool(fl), (it.path(v), llo, lhi)))
         if flags is not None and k != len(flags):
             raise ValueError("reached flags do not match the includes of %r" % t)
-        contents.append([tag] + enc_list(items))
+        contents.append((tag, items))
+    return {"contents": contents,
+            "disk": [(it.path(p), texts.index(t)) for p, t in case["files"]],
+            "extra": [it.path(case["include_dir"])] if case.get("include_dir") is not None else [],
+            "hist": [(k == "raw", it.path(p), texts.index(t)) for k, p, t in case["history"]],
+            "texts": texts}
 
-    def encp(p):
-        sp = it.path(p)
-        return [len(sp)] + sp
-    disk = [encp(p) + [texts.index(t)] for p, t in case["files"]]
-    extra = [encp(case["include_dir"])] if case.get("include_dir") is not None else []
-    hist = [[1 if k == "raw" else 0] + encp(p) + [texts.index(t)] for k, p, t in case["history"]]
+
+def encode_case(case, absmap, it, fuel=400, reached=None):
+    """-> (line of ints for host_run, list of texts by content index)"""
+    st = encode_struct(case, absmap, it, reached)
+    contents = []
+    for tag, items in st["contents"]:
+        enc = []
+        for x in items:
+            if x[0] == "decl":
+                enc.append([0, x[1]])
+            elif x[4] is None:
+                enc.append([1, x[1], x[2], int(x[3]), 0])
+            else:
+                sp, llo, lhi = x[4]
+                enc.append([1, x[1], x[2], int(x[3]), 1, len(sp)] + sp + [llo, lhi])
+        contents.append([tag] + enc_list(enc))
+    disk = [[len(p)] + p + [c] for p, c in st["disk"]]
+    extra = [[len(p)] + p for p in st["extra"]]
+    hist = [[int(raw), len(p)] + p + [c] for raw, p, c in st["hist"]]
     ints = [fuel] + enc_list(contents) + enc_list(disk) + enc_list(extra) + enc_list(hist)
-    return " ".join(map(str, ints)), texts
+    return " ".join(map(str, ints)), st["texts"]
+
+
+# ---- cross-check of the extracted OCaml model against vm_compute inside Coq (DESIGN 1.2)
+
+def _coq_list(xs):
+    return "[" + "; ".join(xs) + "]"
+
+
+def _coq_path(p):
+    return _coq_list([str(x) for x in p])
+
+
+def coq_case(st, fuel, k):
+    """Gallina text evaluating TG.Model.HostInst.run_digests on one case"""
+    out = []
+    for tag, items in st["contents"]:
+        its = []
+        for x in items:
+            if x[0] == "decl":
+                its.append("IDecl %d" % x[1])
+            else:
+                tgt = "None" if x[4] is None else "(Some (%s, (%d, %d)))" % (_coq_path(x[4][0]), x[4][1], x[4][2])
+                its.append("IInc (%d, %d) %s %s" % (x[1], x[2], "true" if x[3] else "false", tgt))
+        out.append("Definition k%d_c%d : scontent := {| c_tag := %d; c_items := %s |}." % (k, tag, tag, _coq_list(its)))
+    disk = _coq_list(["(%s, k%d_c%d)" % (_coq_path(p), k, c) for p, c in st["disk"]])
+    extra = _coq_list([_coq_path(p) for p in st["extra"]])
+    hist = _coq_list(["(%s, %s, k%d_c%d)" % ("true" if raw else "false", _coq_path(p), k, c) for raw, p, c in st["hist"]])
+    out.append("Definition k%d_w : sworld := mk_world %s %s." % (k, disk, extra))
+    out.append('Goal True. idtac "@@CASE %d". Abort.' % k)
+    out.append("Eval vm_compute in (run_digests %d%%nat k%d_w st_init %s)." % (fuel, k, hist))
+    return "\n".join(out)
+
+
+def crosscheck_extraction(cases, model_out, absmap, it, fuel=400, reached=None, limit=40):
+    """Evaluates a slice of the batch inside Coq with vm_compute and compares the per-step digests with the
+    extracted program's.  Returns (number compared, list of mismatches)."""
+    import re
+    idx = [i for i, m in enumerate(model_out) if m and all(s.get("outcome") == "done" for s in m)]
+    idx = sorted(idx, key=lambda i: case_size(cases[i]))
+    step = max(1, len(idx) // limit)
+    pick = idx[::step][:limit]
+    if not pick:
+        return 0, []
+    body = ["From Coq Require Import List NArith.", "From TG.Model Require Import Includes Host HostInst.",
+            "Import ListNotations.", "Open Scope N_scope."]
+    for k, i in enumerate(pick):
+        body.append(coq_case(encode_struct(cases[i], absmap, it, reached), fuel, k))
+    d = os.path.join(vlib.CACHE, "host", "cases-%d" % os.getpid())
+    os.makedirs(d, exist_ok=True)
+    path = os.path.join(d, "HostCases.v")
+    open(path, "w").write("\n".join(body) + "\n")
+    try:
+        rc, out = vlib.sh(["coqc", "-noglob", "-Q", "gen", "TG.Gen", "-Q", "model", "TG.Model", path], cwd=vlib.COQ, timeout=600)
+    finally:
+        import shutil
+        shutil.rmtree(d, ignore_errors=True)
+    if rc != 0:
+        return 0, [{"error": "coqc failed on the generated cases file: " + out[-800:]}]
+    bad = []
+    for k, i in enumerate(pick):
+        m = re.search(r"@@CASE %d\n\s*=\s*(.*?):\s*list \(list N\)" % k, out, re.S)
+        if not m:
+            bad.append({"case": i, "error": "no vm_compute result"})
+            continue
+        rows = re.findall(r"\[([0-9;\s]*)\]", m.group(1).strip()[1:-1]) if m.group(1).strip() != "[]" else []
+        coq = [[int(x) for x in r.replace("\n", " ").split(";") if x.strip()] for r in rows]
+        ocaml = [s.get("digest") for s in model_out[i]]
+        if coq != ocaml:
+            bad.append({"case": i, "vm_compute": coq, "extracted": ocaml})
+    return len(pick), bad
 
 
 def run_model(exe, lines):
@@ -388,6 +476,14 @@ def oracle_step(obs, ref, root, fsys):
 
 # ----------------------------------------------------------------------------- one evaluation pass
 
+LAST_BATCH = {}
+
+
+def crosscheck_last_batch(limit=40):
+    b = LAST_BATCH
+    return crosscheck_extraction(b["cases"], b["model"], b["absmap"], b["it"], b["fuel"], b["reached"], limit)
+
+
 def evaluate(bindir, exe, cases, timeout_ms=3000, stop_after_hangs=6, reached=None, fuel=400):
     """Runs every case through the implementation (harness), the extracted model and the reference.
     Returns one record per case:
@@ -411,6 +507,7 @@ def evaluate(bindir, exe, cases, timeout_ms=3000, stop_after_hangs=6, reached=No
         lines.append(l)
         ctexts.append(tx)
     model = run_model(exe, lines)
+    LAST_BATCH.update({"cases": cases, "model": model, "absmap": absmap, "it": it, "fuel": fuel, "reached": reached})
     out = []
     for c, r, m, tx in zip(cases, impl, model, ctexts):
         rec = {"impl": r, "bad": [], "tie": None, "obs": [], "model": m}
